@@ -399,14 +399,14 @@ public:
         nbPoints       = other.nbPoints;
         timeSignal = other.timeSignal;
         freqSignal = other.freqSignal;
-        memcpy(plan_s2d, other.plan_s2d, sizeof(plan_s2d));
-        memcpy(plan_d2s, other.plan_d2s, sizeof(plan_d2s));
+        plan_s2d = other.plan_s2d;
+        plan_d2s = other.plan_d2s;
         other.nbPointsPerDim = 0;
         other.nbPoints       = 0;
         other.timeSignal = nullptr;
         other.freqSignal = nullptr;
-        memset(other.plan_s2d, 0, sizeof(plan_s2d));
-        memset(other.plan_d2s, 0, sizeof(plan_d2s));
+        other.plan_s2d = nullptr;
+        other.plan_d2s = nullptr;
     }
     /** Copy r-operator move data from given parameter object */
     FFftwCore& operator=(FFftwCore&& other){
@@ -415,14 +415,14 @@ public:
         nbPoints       = other.nbPoints;
         timeSignal = other.timeSignal;
         freqSignal = other.freqSignal;
-        memcpy(plan_s2d, other.plan_s2d, sizeof(plan_s2d));
-        memcpy(plan_d2s, other.plan_d2s, sizeof(plan_d2s));
+        plan_s2d = other.plan_s2d;
+        plan_d2s = other.plan_d2s;
         other.nbPointsPerDim = 0;
         other.nbPoints       = 0;
         other.timeSignal = nullptr;
         other.freqSignal = nullptr;
-        memset(other.plan_s2d, 0, sizeof(plan_s2d));
-        memset(other.plan_d2s, 0, sizeof(plan_d2s));
+        other.plan_s2d = nullptr;
+        other.plan_d2s = nullptr;
         return *this;
     }
     /** Release all data */
